@@ -1,8 +1,8 @@
 package props
 
 import (
-	"io/ioutil"
 	"fmt"
+	"io/ioutil"
 	"os"
 	"path/filepath"
 	"sort"
